@@ -10,6 +10,11 @@ import time
 from ..gen import cells as G
 from ..workmeter import measure
 
+
+def _regen_tl_cost_table():
+    from ..translate import tl_cost
+    return tl_cost.regenerate()
+
 SPEC = dict(
     manifest=dict(
         category='proof',
@@ -32,6 +37,7 @@ SPEC = dict(
                    'the line count is a proxy for cost (C-level work invisible); harness/workmeter.py and the Python harness.',
         technique='Lean 4 proof about a step-counting model + measured work inequality (sys.monitoring line counts) against the library',
     ),
+    translators=[('bundled tl schemas->Generated/TlCostTable.lean', _regen_tl_cost_table)],
     design_ref='DESIGN.md §6 C19',
     rule='one case = one public call on one adversarial input with its model step count; families: double/triple-ref chains 10..1000, '
          'depth-1023 chains, diamonds, wide sharing, random DAGs (order, to_boc x flag sets, from_boc, construction); BoC byte strings '
@@ -599,6 +605,22 @@ class TlEnv:
         return cur
 
 
+def check_tl_side(ctx, env, tag):
+    """the table sent to the driver must satisfy the hypotheses of c19_tl_total (Ids4, NoBareCycle R) and the driver's
+    depth fuel (len/4+2)(|tbl|+2) must dominate tlFuel R len = (len/4+1)(R+2), i.e. R <= |tbl|"""
+    if getattr(env, 'side', None) is not None:
+        return env.side
+    a = ctx.model.run([f'costtlside {env.table}'])[0].split()
+    env.side = a
+    rows = env.table.count('|') + 1
+    if a[0] != 'ok' or a[1] != '1' or a[2] == 'none' or int(a[2]) > rows:
+        ctx.corr_broken(f'TL table of {tag} violates the side conditions of c19_tl_total (ids4={a[1:2]}, bare depth={a[2:3]}): '
+                        f'a bare-reference cycle makes deserialize recurse without consuming input')
+    else:
+        ctx.count(f'tl-table:{tag}:rows={rows},bareDepth={a[2]},maxFields={a[3]}')
+    return a
+
+
 def check_tl(ctx, env, items, tag, f16_fixed=True):
     """items: list of (bytes, mode) ; mode None = boxed, or a schema name (bare).
     f16_fixed=False: the library still has the unguarded vector loop (known finding F16); inputs on which the MODEL's
@@ -606,6 +628,7 @@ def check_tl(ctx, env, items, tag, f16_fixed=True):
     reqs = []
     for bs, mode in items:
         reqs.append(('x' if mode is None else str(env.sid(mode))) + ':' + (bs.hex() or '-'))
+    check_tl_side(ctx, env, tag)
     ans = ctx.model.run([f'costtl {env.table} ' + ','.join(reqs)])[0]
     assert ans.startswith('ok '), ans[:200]
     outs = ans[3:].split(',')
